@@ -122,7 +122,8 @@ class World:
         d = lw.Circuit(3); d.mode_swaps({0: 1, 1: 0}); d.herald(0, 2)     # a pure permutation: exact expected mappings
         e = lw.Unitary(u1.copy()); e.herald(1, 2, 0)     # as b on the input side, the herald leaves on another mode
         f = lw.Unitary(u1.copy()); f.herald(2, 2)        # two herald photons: threshold detectors cannot confirm this herald
-        self.circ = {"a": a, "b": b, "c": c, "p": p, "d": d, "e": e, "f": f}
+        g = lw.Circuit(2); g.bs(0, reflectivity=env.R2); g.ps(1, env.PH[0]); g.bs(0, reflectivity=env.R[1], convention="H")   # no herald at all
+        self.circ = {"a": a, "b": b, "c": c, "p": p, "d": d, "e": e, "f": f, "g": g}
         self.ps = UNSET        # the post-selection object the USER last handed over (and may keep editing)
         # "bad": right length, invalid occupation - the assignment must be refused and change nothing
         self.inputs = {"10": lw.State([1, 0]), "01": lw.State([0, 1]), "11": lw.State([1, 1]), "bad": lw.State([True, False])}
@@ -155,7 +156,7 @@ DET_EFF = 0.75      # imperfect detection: sampling then also caches states outs
 
 # ---------------- Sampler
 def sampler_alphabet(env, tier):
-    a = [("circuit", k) for k in "abcpef"] + [("param", v) for v in (env.R[1], env.L[1])] \
+    a = [("circuit", k) for k in "abcpefg"] + [("param", v) for v in (env.R[1], env.L[1])] \
         + [("input", k) for k in ("10", "01", "bad")] + [("source", k) for k in ("ideal", "dim", "ind")] \
         + [("src_inplace", "brightness", 1.0), ("src_inplace", "brightness", env.R2),
            ("backend", "permanent"), ("backend", "slos"), ("read",), ("draw",),
@@ -176,7 +177,11 @@ def sampler_apply(s, w, op):
     elif k == "backend": s.backend = op[1]
     elif k == "read": s.probability_distribution
     elif k == "draw":            # every sampling path once (each may refuse on its own)
-        for call in (lambda: s.sample_N_inputs(40, seed=1), s.sample, lambda: s.sample_N_outputs(3, seed=1)):
+        for call in (lambda: s.sample_N_inputs(40, seed=1), s.sample, lambda: s.sample_N_outputs(3, seed=1),
+                     # calls that restrict what is returned (per call: nothing of it may stick to the sampler)
+                     lambda: s.sample_N_outputs(3, seed=1, min_detection=1),
+                     lambda: s.sample_N_outputs(2, seed=1, post_select=lambda st: st[0] == 0),
+                     lambda: s.sample_N_inputs(10, seed=1, min_detection=1, post_select=lambda st: st[0] == 0)):
             try:
                 call()
             except Exception:  # noqa: BLE001
@@ -238,7 +243,7 @@ def sampler_config(s, w=None):
 
 # ---------------- QuickSampler
 def quick_alphabet(env, tier):
-    a = [("circuit", k) for k in "abcpe"] + [("param", v) for v in (env.R[1], env.L[1])] \
+    a = [("circuit", k) for k in "abcpeg"] + [("param", v) for v in (env.R[1], env.L[1])] \
         + [("input", k) for k in ("10", "01", "11", "bad")] + [("ps", k) for k in ("none", "r0", "r1", "rX", "empty", "fn0", "fn1")] \
         + [("pc", True), ("pc", False), ("read",), ("draw",), ("ps_inplace",)]
     if tier == "thorough":
